@@ -280,8 +280,8 @@ theorem chainLeaf_succ_cons {κ : Type} (owned : Bool) (dflt : ν) (d : Nat) (e 
     chainLeaf owned dflt (d + 1) (show Tree κ ν (d + 2) from e :: r) = chainLeaf owned dflt d e.2 := rfl
 
 theorem chainLeaf_succ_nil {κ : Type} (owned : Bool) (dflt : ν) (d : Nat) :
-    chainLeaf owned dflt (d + 1) (show Tree κ ν (d + 2) from ([] : List (κ × Tree κ ν (d + 1)))) =
-      if owned then none else some dflt := rfl
+    chainLeaf owned dflt (d + 1) (show Tree κ ν (d + 2) from ([] : List (κ × Tree κ ν (d + 1)))) = some dflt := by
+  cases owned <;> rfl
 
 theorem WF_succ {κ : Type} [LT κ] (d : Nat) (f : Tree κ ν (d + 1)) :
     WF (d + 1) f ↔ (Sorted (show List (κ × Tree κ ν d) from f) ∧ ∀ e ∈ (show List (κ × Tree κ ν d) from f), WF d e.2) :=
@@ -712,10 +712,9 @@ theorem cv_fromUncompressed_noEmpty (dflt : ν) (d : Nat) (n : Nest ν (d + 1)) 
   | some t => rw [fromUncompressed_of_some h]; exact (makeFiber_good dflt d n t h).noEmpty
   | none => rw [fromUncompressed_of_none h]; rfl
 
-/-- the leaf default `_fillempty` finds on the tree built from a nest: always the default for
-    a free fiber; for a tensor-owned one unless the root is empty above the leaf level -/
-theorem cv_chainLeaf_fromUncompressed (owned : Bool) (dflt : ν) (d : Nat) (n : Nest ν (d + 1))
-    (h : owned = false ∨ allDefault dflt (d + 1) n = false ∨ d = 0) :
+/-- the leaf default `_fillempty` finds on the tree built from a nest is the default, for a
+    free and for a tensor-owned fiber alike -/
+theorem cv_chainLeaf_fromUncompressed (owned : Bool) (dflt : ν) (d : Nat) (n : Nest ν (d + 1)) :
     chainLeaf owned dflt d (fromUncompressed dflt d n) = some dflt := by
   cases hm : makeFiber dflt d n with
   | some t => rw [fromUncompressed_of_some hm]; exact (makeFiber_good dflt d n t hm).chain owned
@@ -723,27 +722,22 @@ theorem cv_chainLeaf_fromUncompressed (owned : Bool) (dflt : ν) (d : Nat) (n : 
     rw [fromUncompressed_of_none hm]
     cases d with
     | zero => rfl
-    | succ d =>
-      rcases h with h | h | h
-      · rw [chainLeaf_succ_nil, h]; rfl
-      · rw [(makeFiber_eq_none_iff dflt (d + 1) n).1 hm] at h; cases h
-      · cases h
+    | succ d => exact chainLeaf_succ_nil owned dflt d
 
 /-- Round trip through `uncompress`, for a free (`owned = false`) or tensor-owned fiber. -/
 theorem cv_uncompress_roundtrip (owned : Bool) (dflt : ν) : ∀ (d : Nat) (dims : List Nat) (n : Nest ν (d + 1)),
     rectB (d + 1) dims n = true → (∀ k ∈ dims, 0 < k) →
-    (owned = false ∨ allDefault dflt (d + 1) n = false ∨ d = 0) →
     uncompress owned dflt d dims (fromUncompressed dflt d n) = some n := by
   intro d
   induction d with
   | zero =>
-    intro dims n hr hpos hown
+    intro dims n hr hpos
     cases dims with
     | nil => rw [rectB_succ_nil] at hr; cases hr
     | cons m ns =>
       obtain ⟨hlen, _⟩ := rect_parts hr
       rw [uncompress_zero, present_of_noEmpty dflt 0 _ (cv_fromUncompressed_noEmpty dflt 0 n),
-        cv_chainLeaf_fromUncompressed owned dflt 0 n hown, fillEmpty_zero, rangeFib_eq, ← hlen,
+        cv_chainLeaf_fromUncompressed owned dflt 0 n, fillEmpty_zero, rangeFib_eq, ← hlen,
         fromUncompressed_zero]
       refine (uncRows_lockstep (leafKeep dflt) (fun (v : ν) => some v) (some dflt) (asNestList n) 0).trans ?_
       apply mapMOpt_eq_some_self
@@ -752,14 +746,14 @@ theorem cv_uncompress_roundtrip (owned : Bool) (dflt : ν) : ∀ (d : Nat) (dims
       | none => exact congrArg some (leafKeep_eq_none.1 hk).symm
       | some w => exact congrArg some (leafKeep_eq_some.1 hk).2.symm
   | succ d ih =>
-    intro dims n hr hpos hown
+    intro dims n hr hpos
     cases dims with
     | nil => rw [rectB_succ_nil] at hr; cases hr
     | cons m ns =>
       obtain ⟨hlen, hall⟩ := rect_parts hr
       have hpos' : ∀ k ∈ ns, 0 < k := fun k hk => hpos k (List.mem_cons_of_mem _ hk)
       rw [uncompress_succ, present_of_noEmpty dflt (d + 1) _ (cv_fromUncompressed_noEmpty dflt (d + 1) n),
-        cv_chainLeaf_fromUncompressed owned dflt (d + 1) n hown, rangeFib_eq, ← hlen,
+        cv_chainLeaf_fromUncompressed owned dflt (d + 1) n, rangeFib_eq, ← hlen,
         fromUncompressed_succ]
       refine (uncRows_lockstep (makeFiber dflt d) (fun t => uncompress owned dflt d ns t)
         (fillEmpty (some dflt) (d + 1) ns) (asNestList n) 0).trans ?_
@@ -769,11 +763,7 @@ theorem cv_uncompress_roundtrip (owned : Bool) (dflt : ν) : ∀ (d : Nat) (dims
       | none =>
         exact fillEmpty_of_rect dflt (d + 1) ns x (hall x hx) hpos' ((makeFiber_eq_none_iff dflt d x).1 hk)
       | some w =>
-        have hx' : allDefault dflt (d + 1) x = false := by
-          cases ha : allDefault dflt (d + 1) x with
-          | false => rfl
-          | true => rw [(makeFiber_eq_none_iff dflt d x).2 ha] at hk; cases hk
-        have := ih ns x (hall x hx) hpos' (Or.inr (Or.inl hx'))
+        have := ih ns x (hall x hx) hpos'
         rw [fromUncompressed_of_some hk] at this
         exact this
 
